@@ -106,7 +106,7 @@ def run_property(pid, tier, seed, verbose=False):
   t0 = time.time()
   mod = importlib.import_module(f'pyvc.props.{pid}')
   p = Proof(pid, tier, seed)
-  ev_path = os.path.join(VERIF, 'evidence', f'{pid}.json')
+  ev_path = os.path.join(os.environ.get('VERIF_EVIDENCE_DIR') or os.path.join(VERIF, 'evidence'), f'{pid}.json')
   try:
     try:
       mod.build(p)
